@@ -331,8 +331,11 @@ impl IdxRun<'_> {
             } else {
                 "stale-location"
             };
+            // one cause, one signature: the only difference is that the all-zero key is gone (the .idx loader reads an
+            // all-zero key as an empty slot)
+            let only_zero_key_missing = extra.is_empty() && stale.is_empty() && self.m.map.len() == seen.len() + 1 && self.m.map.contains_key(&[0u8; 9]) && !seen.contains_key(&[0u8; 9]);
             self.h.violation(
-                format!("C05|iter_entries|{kind}|last-structural-op={ls}|{cond}"),
+                if only_zero_key_missing { "C05|iter_entries|all-zero-key-lost|after-reload".to_string() } else { format!("C05|iter_entries|{kind}|last-structural-op={ls}|{cond}") },
                 "the enumeration differs from the map model",
                 json!({"why": why, "model_len": self.m.map.len(), "enumerated": seen.len(), "missing": missing, "extra": extra, "stale": stale}),
             );
@@ -417,7 +420,7 @@ fn run_index(ctx: &Ctx, kind: &'static str, idx: usize, rng: &mut Rng) -> Result
     r.h.log(format!("new target_bucket={target:?} n_ops={n_ops}"));
     if !long {
         // special keys
-        for k in [[0xffu8; 9], [0, 0, 0, 0, 0, 0, 0, 0, 1], [1, 0, 0, 0, 0, 0, 0, 0, 0]] {
+        for k in [[0xffu8; 9], [0, 0, 0, 0, 0, 0, 0, 0, 1], [1, 0, 0, 0, 0, 0, 0, 0, 0], [0u8; 9]] {
             if target.is_none() && rng.chance(1, 4) {
                 r.pool.push(k);
             }
